@@ -20,6 +20,13 @@ pub fn universe() -> Vec<ST> {
         x("2020-01-01T00:00:00Z", "dateTime"), x("2021-06-01T00:00:00Z", "dateTime"),
         lit_lang("abc", "en"), lit_lang("abd", "EN"),
         iri("http://ex/a"), iri("http://ex/b"), bn("b1"), bn("b2"),
+        // dateTimes with other offsets than Z (instant order differs from the order of the lexical forms), without timezone (ordered against
+        // timezoned ones only when more than 14 hours apart), equal instants written differently, an impossible date
+        x("2020-01-01T10:00:00+05:00", "dateTime"), x("2020-01-01T08:00:00Z", "dateTime"), x("2020-01-01T09:00:00", "dateTime"), x("2019-01-01T00:00:00", "dateTime"),
+        x("2022-01-01T00:00:00", "dateTime"), x("2020-01-01T03:00:00-05:00", "dateTime"), x("2020-01-01T22:30:00", "dateTime"), x("2020-02-30T00:00:00Z", "dateTime"),
+        // unsigned types up to their bounds and beyond, integers and decimals closer than a binary64 can tell
+        x("18446744073709551615", "unsignedLong"), x("9223372036854775808", "unsignedLong"), x("18446744073709551616", "unsignedLong"), x("200", "unsignedByte"), x("4294967295", "unsignedInt"), x("65535", "unsignedShort"),
+        x("9007199254740993", "integer"), x("9007199254740992.5", "decimal"), x("9007199254740993.5", "decimal"), x("1.00000000000000000001", "decimal"),
     ]
 }
 
@@ -197,6 +204,34 @@ pub fn run(rng: &mut Rng, tr: &mut Trace, n: usize) {
             }
         }
         tr.emit(json!({"ev":"OrderBy","computed":[],"big":big,"keys":keys.iter().map(|(k, d)| json!({"k":k + 1,"desc":d})).collect::<Vec<_>>(),
+            "rows":rows.iter().map(|(v, w)| json!([cell(v), cell(w)])).collect::<Vec<_>>(),"outs":outs,"failed":failure.is_some(),"msg":failure.unwrap_or_default()}));
+    }
+    // small multisets drawn from one value class only (dateTimes of every shape; numerics near the limits of the machine types): with
+    // 39+ values in the universe, three or four suitably related values rarely meet in one random multiset
+    let classes: Vec<Vec<ST>> = vec![
+        u.iter().filter(|t| sophia_api::term::Term::datatype(*t).map(|d| d.ends_with("dateTime")).unwrap_or(false)).cloned().collect(),
+        u.iter().filter(|t| {
+            let l = sophia_api::term::Term::lexical_form(*t).map(|x| x.len()).unwrap_or(0);
+            let d = sophia_api::term::Term::datatype(*t).map(|d| d.to_string()).unwrap_or_default();
+            (l >= 10 || d.contains("unsigned")) && !d.ends_with("dateTime") && !d.ends_with("string")
+        }).chain(u[..4].iter()).cloned().collect(),
+    ];
+    for i in 0..n / 2 {
+        let class = &classes[i % classes.len()];
+        let k = 3 + rng.below(2);
+        let rows: Vec<(Option<ST>, Option<ST>)> = (0..k).map(|_| (Some(rng.pick(class).clone()), None)).collect();
+        let keys: Vec<(usize, bool)> = vec![(0, rng.chance(1, 3))];
+        let mut outs: Vec<Value> = vec![];
+        let mut failure: Option<String> = None;
+        for p in &permutations(k) {
+            let permuted: Vec<(Option<ST>, Option<ST>)> = p.iter().map(|j| rows[*j].clone()).collect();
+            match guarded(|| order(&permuted, &keys)) {
+                Ok(Ok(o)) => outs.push(Value::Array(o)),
+                Ok(Err(e)) => failure = Some(format!("error: {e}")),
+                Err(m) => failure = Some(format!("panic: {m}")),
+            }
+        }
+        tr.emit(json!({"ev":"OrderBy","computed":[],"big":false,"keys":keys.iter().map(|(k, d)| json!({"k":k + 1,"desc":d})).collect::<Vec<_>>(),
             "rows":rows.iter().map(|(v, w)| json!([cell(v), cell(w)])).collect::<Vec<_>>(),"outs":outs,"failed":failure.is_some(),"msg":failure.unwrap_or_default()}));
     }
     // values that went through arbitrary-precision arithmetic, next to stored ones: the key of a computed row is BIND(?x - B AS ?v)
